@@ -8,6 +8,12 @@ CLAIMS = {
          "every path, all orthogonal siblings visited, INVALID-freedom and own-sub-state origin of every resolved prong (interprocedural origin analysis), "
          "anonymous-head default for select, descent into nested regions. Does not decide which prong a particular float input selects (C12).",
          "path rules + who-may-write + interprocedural value-origin analysis over clang AST facts (static analysis)"),
+ "C02": ("Decides that the routing / resolution tables of the code agree with the rules of the statement, for every instantiation in the zoo: exhaustive "
+         "kind dispatch on both dispatch mechanisms, per resolver the source of the stored prong (literal first / guarded resumable / select() / sub-state "
+         "report / random walk) for request and report flavours alike, descent into nested regions with the chosen prong, prong dispatch inside CS_, "
+         "leftmost-on-ties comparisons, resumable memory on every leave, reset() order, idle guards, agreement of the two RegistryT specialisations and the "
+         "name-to-kind table of the whole request API. Does not decide the resulting configuration for an arbitrary batch from an arbitrary state.",
+         "table/sibling agreement rules + interprocedural value-origin analysis + path rules over clang AST facts (static analysis)"),
  "C03": ("Decides enter-after-parent / exit-before-parent order, exit/enter pairing per region, that callbacks reach a sub-state only through the "
          "active (resp. requested) prong of its own region, prong dispatch inside CS_, who may invoke user callbacks / state wrappers / apex entry points, "
          "activation entry points and that access<T>() denotes the sub-object handlers run on - for every instantiation in the zoo. The count "
